@@ -3886,6 +3886,9 @@ func _select(n *node) {
 	}
 
 	n.exec = func(f *frame) bltn {
+		// The statement may be executed by several goroutines at once:
+		// each execution fills its own copy of the cases.
+		cases := append([]reflect.SelectCase(nil), cases...)
 		f.mutex.RLock()
 		cases[nbClause] = f.done
 		f.mutex.RUnlock()
